@@ -448,7 +448,14 @@ func (p *parser) parseASCII(minLength, maxLength int) (item ast.ItemNode, ok boo
 
 			if _, ok := p.variableNames[t.val]; ok {
 				p.errorf(t, "duplicated variable name %q", t.val)
-				return ast.NewASCIINode(strings.Repeat("*", minLength)), true
+				// continue with a placeholder variable under an unused name; a placeholder
+				// string of the declared minimum length would let the input size memory
+				name := "_" + t.val
+				for p.variableNames[name] {
+					name = "_" + name
+				}
+				p.variableNames[name] = true
+				return ast.NewASCIINodeVariable(name, minLength, maxLength), true
 			} else {
 				p.variableNames[t.val] = true
 				return ast.NewASCIINodeVariable(t.val, minLength, maxLength), true
